@@ -415,12 +415,6 @@ theorem getT_replicate (n i : Nat) : getT (List.replicate n none) i = none := by
   · simp [h]
   · simp [h]
 
-/-- the tokens of the objects of a value's context -/
-def ctxTokens (ctx : Option (Nat × TSlots)) : List Nat :=
-  match ctx with
-  | some (c, cs) => tokens (.dict c cs)
-  | none => []
-
 /-- the part of `callT` after `get_data_context`: context object `c` with slots `cs`, counter `n0` -/
 def callCore (names : List String) (fx : Bool) (n0 vt : Nat) (vc : TSlots) (c : Nat) (cs : TSlots) : Except Err CallRes :=
   match deepcopyT n0 (.dict vt vc) with
